@@ -309,7 +309,27 @@ def emit_tsl(o, stats):
                 stats["tsl"] = stats.get("tsl", 0) + 1
     o.w("];")
 
+def shipped_json(root):
+    """run-time mode: scrape the derive attributes of every shipped prime field of the registry from the source tree
+    `root` and print them as JSON (the C20 binary calls this; nothing is baked into the harness at generation time)"""
+    global REPO
+    REPO = root
+    import json
+    rows, unresolved = [], []
+    for (ty, name) in shipped_names():
+        crate, which = name.rsplit("::", 1)
+        got = resolve_shipped(crate, which)
+        if not got:
+            unresolved.append(name)
+            continue
+        rows.append(dict(name=name, src=got["src"], p=str(got["p"]), g=str(got["g"]),
+                         base=got["sub"][0] if got["sub"] else None, power=got["sub"][1] if got["sub"] else None))
+    print(json.dumps(dict(attrs=rows, unresolved=unresolved)))
+    return 0
+
 def main():
+    if "--shipped-json" in sys.argv:
+        return shipped_json(sys.argv[sys.argv.index("--shipped-json") + 1])
     toy, toy_order = parse_gen_fields()
     stats = {}
     o = Out()
@@ -355,10 +375,12 @@ def main():
     o.w("}")
     o.w("")
 
+    # the two shipped moduli of the literal grids are written here, not read from /repo: generation must not depend on
+    # the tree being checked (a changed attribute in /repo is the check's business at run time, see --shipped-json)
     P_SECP = (1 << 256) - (1 << 32) - 977
-    bls = resolve_shipped("bls12_381", "Fq")
-    secp = resolve_shipped("secp256k1", "Fq")
-    assert secp["p"] == P_SECP
+    P_BLS381 = 0x1a0111ea397fe69a4b1ba7b6434bacd764774b84f38512bf6730d2a0f6b0f6241eabfffeb153ffffb9feffffffffaaab
+    secp = dict(p=P_SECP)
+    bls = dict(p=P_BLS381)
     assert bls["p"].bit_length() == 381
 
     mods = []   # (module, type path, type name, p, n, grid)
@@ -425,23 +447,6 @@ def main():
         sp = f"Some({t['sub'][1]})" if t["sub"] else "None"
         o.w(f'    ("{nm}", "{t["p"]}", "{t["g"]}", {sb}, {sp}),')
     o.w("];")
-    o.w("/// attribute strings of the shipped prime fields, parsed from the `#[derive(MontConfig)]` site that the")
-    o.w("/// registry name resolves to (re-exports followed): (registry name, source file, modulus, generator, base, power)")
-    o.w("pub const SHIPPED_ATTRS: &[(&str, &str, &str, &str, Option<u32>, Option<u32>)] = &[")
-    unresolved = []
-    for (ty, name) in shipped_names():
-        crate, which = name.rsplit("::", 1)
-        got = resolve_shipped(crate, which)
-        if not got:
-            unresolved.append(name)
-            continue
-        sb = f"Some({got['sub'][0]})" if got["sub"] else "None"
-        sp = f"Some({got['sub'][1]})" if got["sub"] else "None"
-        o.w(f'    ("{name}", "{got["src"]}", "{got["p"]}", "{got["g"]}", {sb}, {sp}),')
-    o.w("];")
-    o.w("/// shipped prime fields whose derive site could not be located (checked against MODULUS-derived quantities only)")
-    o.w("pub const SHIPPED_UNRESOLVED: &[&str] = &[" + ", ".join(rs_str(x) for x in unresolved) + "];")
-
     files = {os.path.join(VERIF, "harness", "src", "gen_literals_c20.rs"): o.text()}
     files.update(neg_package(toy))
     stale = []
@@ -457,7 +462,7 @@ def main():
             print("literals.py: stale generated files:", *stale, sep="\n  ")
             sys.exit(2)
     else:
-        print("wrote", len(files), "files;", "constants:", json.dumps(stats, sort_keys=True), "unresolved shipped:", unresolved)
+        print("wrote", len(files), "files;", "constants:", json.dumps(stats, sort_keys=True))
 
 # ------------------------------------------------------------------ negative literals
 def neg_package(toy):
@@ -587,4 +592,4 @@ pub fn show_big<const N: usize>(x: &ark_ff::BigInt<N>) {{
     return files
 
 if __name__ == "__main__":
-    main()
+    sys.exit(main())
